@@ -303,7 +303,7 @@ Tool ==
 
 Init ==
     /\ attrs = [c \in Classes |-> 0]
-    /\ hasCmds = TRUE /\ hasEvents \in BOOLEAN /\ viz \in BOOLEAN
+    /\ hasCmds \in BOOLEAN /\ hasEvents \in BOOLEAN /\ viz \in BOOLEAN
     /\ out = [f \in Bindings |-> Absent]
     /\ cache = Absent /\ probe = "absent"
     /\ gen = 0 /\ run = Idle
